@@ -823,6 +823,9 @@ class Interp:
                 return SymStr('%s.%s' % (obj.name, attr), nonempty=True)
             if attr in ('__repr__', '__str__', '__format__'):
                 return Prim('%s.%s' % (obj.name, attr))
+            alt = self._class_level_method(obj, attr)
+            if alt is not None:
+                return alt
             return Sym('%s.%s' % (obj.name, attr))
         if isinstance(obj, CtxV):
             if attr == 'multiline_strategy':
@@ -854,8 +857,13 @@ class Interp:
                 return obj.attrs[attr]
             meth_ = self.find_method(obj.cls, attr) if obj.cls.module is not None else obj.cls.methods.get(attr)
             if meth_ is not None:
-                if any(isinstance(d_, ast.Name) and d_.id == 'property' for d_ in meth_.node.decorator_list):
+                decos_ = {d_.id for d_ in meth_.node.decorator_list if isinstance(d_, ast.Name)}
+                if 'property' in decos_:
                     return self.call_function(FuncV(meth_), [obj], {}, n)
+                if 'classmethod' in decos_:
+                    return PartialV(FuncV(meth_), [TypeV(obj.cls.name)], {})
+                if 'staticmethod' in decos_:
+                    return FuncV(meth_)
                 return BoundV(obj, attr)
             raise Raised('AttributeError: %s.%s' % (obj.cls.name, attr), getattr(n, 'lineno', 0))
         if isinstance(obj, (DictV, SetV)):
@@ -1026,6 +1034,22 @@ class Interp:
                 raise Undecided('constant arithmetic failed at line %s' % getattr(n, 'lineno', '?'))
         if op is ast.Add and isinstance(l, (ListV, TupleV)) and isinstance(r, (ListV, TupleV)):
             return type(l)(l.items + r.items)
+        if isinstance(l, SetV) and isinstance(r, SetV) and op in (ast.Sub, ast.BitAnd, ast.BitOr, ast.BitXor):
+            # set algebra is decided only when membership of every element is known
+            def member(x, s):
+                ks = [self._known_eq(x, y) for y in s.items]
+                if any(k is True for k in ks):
+                    return True
+                if any(k is None for k in ks):
+                    raise Undecided('set algebra on elements of unknown equality (line %s)' % getattr(n, 'lineno', '?'))
+                return False
+            if op is ast.Sub:
+                return SetV([x for x in l.items if not member(x, r)])
+            if op is ast.BitAnd:
+                return SetV([x for x in l.items if member(x, r)])
+            if op is ast.BitOr:
+                return SetV(list(l.items) + [y for y in r.items if not member(y, l)])
+            return SetV([x for x in l.items if not member(x, r)] + [y for y in r.items if not member(y, l)])
         if op is ast.Add and (isinstance(l, SymStr) or isinstance(r, SymStr) or
                               (isinstance(l, Const) and isinstance(l.v, str)) or (isinstance(r, Const) and isinstance(r.v, str))):
             ne = (getattr(l, 'nonempty', None) or getattr(r, 'nonempty', None) or
@@ -1459,6 +1483,23 @@ class Interp:
             self._wrapper_cls_names = w
         return w
 
+    def _class_level_method(self, t, attr):
+        """Cls.attr for a class of the package: an alternative constructor (classmethod, bound to the class) or a static helper"""
+        for m_ in self.repo.modules.values():
+            ci = m_.classes.get(t.name)
+            if ci is None:
+                continue
+            meth_ = self.find_method(ci, attr)
+            if meth_ is None:
+                return None
+            decos_ = {d_.id for d_ in meth_.node.decorator_list if isinstance(d_, ast.Name)}
+            if 'classmethod' in decos_:
+                return PartialV(FuncV(meth_), [t], {})
+            if 'staticmethod' in decos_:
+                return FuncV(meth_)
+            return None
+        return None
+
     def find_method(self, ci, name):
         """method ``name`` of class ``ci`` or of its base classes inside the package (depth-first, left to right)"""
         seen = set()
@@ -1494,6 +1535,15 @@ class Interp:
         if name in self._wrapper_classes() and name not in concrete:
             return Sym('%s(%s)' % (name, ','.join(_prov(a) for a in args)))
         if name == 'PrettyContext' and not getattr(self, 'concrete_context', False):
+            if args:
+                # positional arguments are bound the way the class's own __init__ names them
+                ci_ = self.repo.module('prettyprinter').classes.get('PrettyContext')
+                init_ = self.find_method(ci_, '__init__') if ci_ is not None else None
+                if init_ is None or len(args) > len(init_.params) - 1:
+                    raise Undecided('positional construction of PrettyContext cannot be bound')
+                kwargs = dict(kwargs)
+                for p_, a_ in zip([p for p in init_.params if p != 'self'], args):
+                    kwargs[p_] = a_
             return CtxV('ctx', 0, kwargs.get('multiline_strategy'), {k: v for k, v in kwargs.items()})
         if name == 'PrettyContext' or (getattr(self, 'concrete_classes', None) and name in self.concrete_classes):
             ci = None
